@@ -258,6 +258,15 @@ let cmd_search t =
 (* fmul a b *)
 let cmd_fmul t = let a = next_z t in let b = next_z t in out_z (fmul32 a b)
 
+(* sparseops n1 idx1[n1] val1[n1] n2 idx2[n2] val2[n2] *)
+let cmd_sparseops t =
+  let rd () = let n = next_int t in let i = next_list t n in let v = next_list t n in List.combine i v in
+  let a = rd () in let b = rd () in
+  let outv v = out_list (List.map fst v); out_str ";"; out_list (List.map snd v) in
+  outv (sparse_sum a b); out_sep (); outv (sparse_diff a b); out_sep (); outv (sparse_mul a b); out_sep ();
+  out_z (sparse_dot_product a b); out_sep ();
+  out_z (fast_intersection_size (List.map fst a) (List.map fst b))
+
 (*DISPATCH-BEGIN*)
 let dispatch : (string * (toks -> unit)) list = [
   ("heapseq", cmd_heapseq);
@@ -279,6 +288,7 @@ let dispatch : (string * (toks -> unit)) list = [
   ("linkedchk", cmd_linkedchk);
   ("search", cmd_search);
   ("fmul", cmd_fmul);
+  ("sparseops", cmd_sparseops);
 ]
 (*DISPATCH-END*)
 
